@@ -526,6 +526,7 @@ func (ex *Exec) modField(ms *ModSet, env *Env, base Value, name string) {
 	if name == "*" {
 		for _, l := range leavesOf(pt.Elem()) {
 			n := heapName(pt.Elem(), l.Path)
+			leafSortCache[n] = l.Sort
 			ms.Heap[n] = append(ms.Heap[n], base.L[0])
 		}
 		return
@@ -547,6 +548,7 @@ func (ex *Exec) modField(ms *ModSet, env *Env, base Value, name string) {
 	_ = stt
 	for _, l := range leavesOf(fv.Type()) {
 		n := heapName(cpt.Elem(), "."+fv.Name()+l.Path)
+		leafSortCache[n] = l.Sort
 		ms.Heap[n] = append(ms.Heap[n], cur.L[0])
 	}
 }
